@@ -168,6 +168,30 @@ func c16(c *ev.Ctx) {
 		addExpr("range-bad/"+bad.Describe(), "range", gast.Infix{Op: "..", L: gast.IntLit{V: 1}, R: bl}, nil, nil)
 		addExpr("range-bad2/"+bad.Describe(), "range", gast.Infix{Op: "..", L: bl, R: gast.IntLit{V: 3}}, nil, nil)
 	}
+	// sizes around the byte boundary of instruction operands
+	for _, cnt := range []int{255, 256, 257, 300} {
+		els := make([]model.Value, cnt)
+		var ents []model.HashEnt
+		for i := range els {
+			els[i] = model.Int(int64(i))
+			ents = append(ents, model.HashEnt{Key: model.Int(int64(i * 3)), Val: model.Int(int64(i))})
+		}
+		big, _ := gen.LitOf(model.Value{K: model.KArr, A: els})
+		bigH, _ := gen.LitOf(model.Value{K: model.KHash, H: ents})
+		for _, idx := range []int{0, 1, cnt - 2, cnt - 1, cnt, cnt + 1, 254, 255, 256} {
+			il, _ := gen.LitOf(model.Int(int64(idx)))
+			addExpr(fmt.Sprintf("bigarr/%d/%d", cnt, idx), "large array literal", gast.Index{X: big, I: il}, nil, nil)
+			kl, _ := gen.LitOf(model.Int(int64(idx * 3)))
+			addExpr(fmt.Sprintf("bighash/%d/%d", cnt, idx), "large hash literal", gast.Index{X: bigH, I: kl}, nil, nil)
+		}
+		addExpr(fmt.Sprintf("bigarr-len/%d", cnt), "large array literal", gast.Call{Fn: "len", Args: []gast.Expr{big}}, nil, nil)
+		addExpr(fmt.Sprintf("bighash-len/%d", cnt), "large hash literal", gast.Call{Fn: "len", Args: []gast.Expr{bigH}}, nil, nil)
+		lo, _ := gen.LitOf(model.Int(int64(1)))
+		hi, _ := gen.LitOf(model.Int(int64(cnt)))
+		addExpr(fmt.Sprintf("bigrange/%d", cnt), "range", gast.Call{Fn: "len", Args: []gast.Expr{gast.Infix{Op: "..", L: lo, R: hi}}}, nil, nil)
+		tr := func(args ...gast.Expr) gast.Stmt { return gast.ExprStmt{X: gast.Call{Fn: "t", Args: args}} }
+		addProg(fmt.Sprintf("bigarr-foreach/%d", cnt), "iteration", gast.Program{Stmts: []gast.Stmt{gast.Assign{Name: "n", X: gast.IntLit{V: 0}}, gast.Foreach{Idx: "i", Var: "e", It: big, Body: []gast.Stmt{gast.Assign{Name: "n", X: gast.Infix{Op: "+", L: gast.Ident{Name: "n"}, R: gast.Infix{Op: "-", L: gast.Ident{Name: "e"}, R: gast.Ident{Name: "i"}}}}}}, tr(gast.Ident{Name: "n"}), gast.Return{X: gast.Ident{Name: "n"}}}}, nil, nil)
+	}
 	c.ParFor(len(jobs), func(i int) {
 		j := jobs[i]
 		if !c.Want(j.id) {
